@@ -1,0 +1,25 @@
+//go:build verif
+
+package pubsub
+
+import "sync/atomic"
+
+// verifYieldHook is the callback registered by the verification
+// harness; it is only compiled with the "verif" build tag.
+var verifYieldHook atomic.Pointer[func(string)]
+
+// SetVerifYieldHook registers (or, with nil, removes) the function
+// called at every named yield point. It is safe for concurrent use.
+func SetVerifYieldHook(fn func(name string)) {
+	if fn == nil {
+		verifYieldHook.Store(nil)
+		return
+	}
+	verifYieldHook.Store(&fn)
+}
+
+func verifYield(name string) {
+	if fn := verifYieldHook.Load(); fn != nil {
+		(*fn)(name)
+	}
+}
